@@ -469,7 +469,7 @@ def run(ctx):
             finally:
                 s.close()
 
-    ctx.explore_machine(Machine, ctx.scale(150, 1500), steps=30)
+    ctx.explore_machine(Machine, ctx.scale(100, 1000), steps=30)
 
 
 def replay(ctx, case):
